@@ -19,6 +19,7 @@ Spec examples are reported as  '<contract>|spec:<example number>|nw=<b>'.
 """
 import os
 import re
+import sys
 
 from runtime.common import use_repo, spec_examples, pool_map, Timer
 from runtime import mdgen
@@ -230,13 +231,13 @@ def work(job):
 
 def run(tier, seed, workers):
     t = Timer()
-    n_free, n_normal = (6000, 3000) if tier == 'quick' else (400000, 150000)
+    n_free, n_normal = (6000, 3000) if tier == 'quick' else (200000, 80000)
     base = seed * 10_000_000
     cases = [('spec', e['example'], e['markdown']) for e in spec_examples()]
     cases += [('gen', 'free', base + i) for i in range(n_free)]
     cases += [('gen', 'normal', base + i) for i in range(n_normal)]
     chunks = [cases[i:i + CHUNK] for i in range(0, len(cases), CHUNK)]
-    per_chunk = SHRINK_PER_CHUNK if tier == 'quick' else 2
+    per_chunk = SHRINK_PER_CHUNK if tier == 'quick' else 1
     out = {'evaluations': 0, 'contract_evaluations': 0, 'failing_cases': 0, 'shrink_evals': 0}
     failures, samples, nontriv, kinds, maxdepth = {}, [], set(), {}, 0
     seen, classes = set(), {}
@@ -259,6 +260,8 @@ def run(tier, seed, workers):
                     c = '%s|%s' % (f['contract'], f['class'])
                     classes[c] = classes.get(c, 0) + 1
                     failures[f['key']] = f
+        if os.environ.get('VERIF_PROGRESS'):
+            sys.stderr.write('b09: %d/%d work items, %.0f s\n' % (min(lo + step, len(chunks)), len(chunks), t.s()))
         if len(failures) > 4 * MAX_FAILURES + 2000:       # bound the memory: keep the smallest
             failures = {f['key']: f for f in sorted(failures.values(), key=order)[:MAX_FAILURES + 200]}
     fl = sorted(failures.values(), key=order)
